@@ -82,10 +82,31 @@ JoinRows(kind, L, R, cols, on) ==
                      IF m = <<>> /\ kind = "left" THEN << lr \o Nulls(Len(R.cols)) >> ELSE m
   IN FoldLeft(LAMBDA acc, lr : acc \o perLeft(lr), <<>>, L.rows)
 
+\* The Select BUILDER.  A [sel, cols, cond] node is not a nested query: it stands for the
+\* builder calls  .columns(cols)  (made when cols # <<>>; it REPLACES any earlier projection)
+\* and  .with(cond)  (made when cond is not the literal 1; it is AND-ed to earlier conditions)
+\* applied to the Select built for q.sel.  Only the operands of a join are sub-selects.
+\* Flat(q) is the builder's state: [from (a table or join node), cols, conds].
+TrueLit == Lit(IntV(1))
+RECURSIVE Flat(_)
+Flat(q) ==
+  IF "sel" \in DOMAIN q THEN
+     LET f == Flat(q.sel) IN
+     [from |-> f.from,
+      cols |-> IF q.cols = <<>> THEN f.cols ELSE q.cols,
+      conds |-> IF q.cond = TrueLit THEN f.conds ELSE Append(f.conds, q.cond)]
+  ELSE [from |-> q, cols |-> <<>>, conds |-> <<>>]
+\* the builder's single condition: c1.and(c2).and(c3)...
+AndAll(conds) == IF conds = <<>> THEN TrueLit
+                 ELSE FoldLeft(LAMBDA acc, c : Bin("and", acc, c), Head(conds), Tail(conds))
+
+\* det: no condition met an operand combination whose result the specification leaves open
+\* (overflow: null or wrapped), so the result below is THE result.
 RECURSIVE SelectV(_, _)
 SelectV(q, db) ==
   IF "table" \in DOMAIN q THEN
-     (IF q.table \in DOMAIN db THEN Ok([name |-> q.table, cols |-> db[q.table].cols, rows |-> db[q.table].rows])
+     (IF q.table \in DOMAIN db
+      THEN Ok([name |-> q.table, cols |-> db[q.table].cols, rows |-> db[q.table].rows, det |-> TRUE])
       ELSE Err)
   ELSE IF "join" \in DOMAIN q THEN
      LET l == SelectV(q.l, db) r == SelectV(q.r, db) IN
@@ -94,16 +115,23 @@ SelectV(q, db) ==
               cols == Prefixed(L.name, L.cols) \o
                       (IF q.join = "left" THEN AllNullable(Prefixed(R.name, R.cols)) ELSE Prefixed(R.name, R.cols))
           IN IF ~KnownCols(cols, q.on) THEN Err
-             ELSE Ok([name |-> <<>>, cols |-> cols, rows |-> JoinRows(q.join, L, R, cols, q.on)])
+             ELSE Ok([name |-> <<>>, cols |-> cols, rows |-> JoinRows(q.join, L, R, cols, q.on),
+                      det |-> /\ L.det /\ R.det
+                              /\ \A i \in 1..Len(L.rows), k \in 1..Len(R.rows) :
+                                    Deterministic(q.on, RowOf(cols, L.rows[i] \o R.rows[k]))])
   ELSE
-     LET s == SelectV(q.sel, db) IN
+     LET f == Flat(q)
+         s == SelectV(f.from, db)
+         cond == AndAll(f.conds) IN
      IF IsErr(s) THEN Err
      ELSE LET S == s.ok IN
-          IF (\E k \in 1..Len(q.cols) : ~HasCol(S.cols, q.cols[k])) \/ ~KnownCols(S.cols, q.cond) THEN Err
-          ELSE LET kept == SelectSeq(S.rows, LAMBDA r : Holds(q.cond, RowOf(S.cols, r)))
-                   idx  == [k \in 1..Len(q.cols) |-> ColIndex(S.cols, q.cols[k])]
-               IN IF q.cols = <<>> THEN Ok([name |-> S.name, cols |-> S.cols, rows |-> kept])
+          IF (\E k \in 1..Len(f.cols) : ~HasCol(S.cols, f.cols[k])) \/ ~KnownCols(S.cols, cond) THEN Err
+          ELSE LET kept == SelectSeq(S.rows, LAMBDA r : Holds(cond, RowOf(S.cols, r)))
+                   idx  == [k \in 1..Len(f.cols) |-> ColIndex(S.cols, f.cols[k])]
+                   det  == S.det /\ \A n \in 1..Len(S.rows) : Deterministic(cond, RowOf(S.cols, S.rows[n]))
+               IN IF f.cols = <<>> THEN Ok([name |-> S.name, cols |-> S.cols, rows |-> kept, det |-> det])
                   ELSE Ok([name |-> <<>>,
                            cols |-> [k \in 1..Len(idx) |-> S.cols[idx[k]]],
-                           rows |-> [n \in 1..Len(kept) |-> [k \in 1..Len(idx) |-> kept[n][idx[k]]]]])
+                           rows |-> [n \in 1..Len(kept) |-> [k \in 1..Len(idx) |-> kept[n][idx[k]]]],
+                           det |-> det])
 =============================================================================
